@@ -837,7 +837,7 @@ fn minimise(case: &Case, msg: &str) -> Case {
 }
 
 pub fn run(ctx: &mut Ctx) {
-    ctx.rule = "inputs for 24 public decoder entry points (CTAP2 CBOR of six message types, authenticator data, WebAuthn JSON of five types, base64 helpers, three U2F parsers, CTAPHID packet sequences, COSE key converter, fingerprint and asset-link validators, suffix-list API, RP-ID verifier, Bytes/Aaguid CBOR): arbitrary bytes/strings, and structured mutations of valid encodings produced by the C12/C13/C14/C16/C17 generators (truncation, extension, bit flips, a CTAPHID initialisation packet declaring any length followed by up to 700 continuation packets, COSE keys whose coordinates have any sizes; CBOR length heads rewritten to 2^16 / 2^32-1 / 2^32 / 2^40 / 2^63 / 2^64-1 / 2^28, inserted huge heads, nesting up to 10^5, length fields rewritten, splices), occasionally fed to another decoder of the same wire format; each case runs in an isolated worker under catch_unwind with allocation and CPU accounting. Plus 16 growth families (thousands of HID packets on distinct / one channel, CBOR and JSON lists of n entries, n unknown members, n labels, ...) measured at n and 4n. Non-trivial = a mutation of a valid encoding, or an input the decoder accepted; distinct by (decoder, input).".into();
+    ctx.rule = "inputs for 24 public decoder entry points (CTAP2 CBOR of six message types, authenticator data, WebAuthn JSON of five types, base64 helpers, three U2F parsers, CTAPHID packet sequences, COSE key converter, fingerprint and asset-link validators, suffix-list API, RP-ID verifier, Bytes/Aaguid CBOR): arbitrary bytes/strings, and structured mutations of valid encodings produced by the C12/C13/C14/C16/C17 generators (truncation, extension, bit flips, a CTAPHID initialisation packet declaring any length followed by up to 700 continuation packets, COSE keys whose coordinates have any sizes; CBOR length heads rewritten to 2^16 / 2^32-1 / 2^32 / 2^40 / 2^63 / 2^64-1 / 2^28, inserted huge heads, nesting up to 10^5, length fields rewritten, splices), occasionally fed to another decoder of the same wire format; each case runs in an isolated worker under catch_unwind with allocation and CPU accounting. Plus 16 growth families (thousands of HID packets on distinct / one channel, CBOR and JSON lists of n entries, n unknown members, n labels, ...) measured at n and 4n. Since rounds 7/8: names with characters whose case mappings change the encoded length, asset links without a host against address-host statement URLs, growth families with line breaks / padding / blanks (19 families). Non-trivial = a mutation of a valid encoding, or an input the decoder accepted; distinct by (decoder, input).".into();
     ctx.assumptions = vec![
         "'out of proportion' is decided numerically: largest single allocation request and peak live bytes <= 8 MiB + 256 x input length (serde itself pre-allocates up to ~1.6 MB for a declared collection length, a bounded constant); thread CPU time <= 250 ms + 20 us x input length (minimum of 3 runs); a 10 s CPU watchdog in the worker".into(),
         "a returned value and a returned error are both fine".into(),
